@@ -427,9 +427,29 @@ class PTA:
         body = f.node.body
         self.exec_block(body)
 
+    def _closed_world(self, f: FuncInfo) -> bool:
+        """A private function (_name / __name) that the repository itself calls: all its callers are known, so its
+        parameters need no placeholder object for values 'supplied from outside'."""
+        n = f.name
+        if not n.startswith('_') or (n.startswith('__') and n.endswith('__')):
+            return False
+        called = getattr(self, '_called_names', None)
+        if called is None:
+            called = set()
+            for m in self.ix.modules.values():
+                for nd in ast.walk(m.tree):
+                    if isinstance(nd, ast.Call):
+                        if isinstance(nd.func, ast.Attribute):
+                            called.add(nd.func.attr)
+                        elif isinstance(nd.func, ast.Name):
+                            called.add(nd.func.id)
+            self._called_names = called
+        return n in called
+
     def seed_params(self, f: FuncInfo):
         q = self._fq(f)
         names = f.param_names
+        closed = self._closed_world(f)
         for i, p in enumerate(f.params):
             var = ('L', q, p.arg)
             if i == 0 and f.cls is not None and not f.is_static:
@@ -451,6 +471,8 @@ class PTA:
                 self.add(var, objs)
             else:
                 elem = self.ix.annotation_elem_classes(f.module, p.annotation)
+                if closed and not elem:
+                    continue
                 po = self.param_obj(f, p.arg)
                 self.add(var, [po])
                 for c in elem:
